@@ -63,6 +63,8 @@ package agent
 //@   guard-call relayid:   "AgentInstance#3" arg(1) == AgentHdr.AgentID
 //@   guard-call relaykey:  "DecryptBuffer" sameslice(arg(1), PivotAgent.Encryption.AESKey) && sameslice(arg(2), PivotAgent.Encryption.AESIv)
 //@   guard-call relaygate: "TaskDispatch" arg(0) == PivotAgent && arg(0) != nil
+// C09: a disconnect callback detaches, from the reporting agent, the child whose id the callback carries
+//@   guard-call unlink: "LinkRemove" arg(1) == a && arg(2) == lastresult(AgentInstance) && lastarg(AgentInstance, 1) == lastresult(ParseInt32)
 // C07: a file chunk / close callback names the transfer by the big-endian id in its
 // first four bytes; the chunk written is everything after those four bytes.
 // (COMMAND_FS download sub-commands carry the id as their second integer.)
@@ -286,6 +288,9 @@ package agent
 //@   guard-call targetid: "AddInt32#1" arg(1) == int32(uf_hexval(a.NameID))
 //@   guard-call hopid: "AddInt32#2" arg(1) == int32(uf_hexval(atloophead(pivots).Parent.NameID))
 //@   guard-call body: "AddBytes" sameslice(arg(1), Payload)
+// the wrapped job is queued on the first hop: the ancestor that has no parent itself
+//   (the only other append is the display copy on the target's own queue)
+//@   guard-call queue: "append" sameslice(arg(0), a.JobQueue) || (pivots != nil && pivots.Parent.Pivots.Parent == nil && sameslice(arg(0), pivots.Parent.JobQueue))
 //@   loop "for"
 //@     invariant chain: pivots != nil && pivots.Parent != nil && err == nil
 
@@ -300,7 +305,10 @@ package agent
 //@ func (a *Agent) DownloadAdd(FileID int, FilePath string, FileSize int64) (err error)
 //@   requires nonnil: a != nil && logr.LogrInstance != nil && forall(i, 0, len(a.Downloads), a.Downloads[i] != nil)
 //@   modifies a.Downloads, a.Downloads[len(a.Downloads)]
+//   (the test is made on the cleaned form of the very directory that is then created and written into)
 //@   guard-call contain: "MkdirAll|Create" inside(path, logr.LogrInstance.AgentPath + "/" + a.NameID + "/Download")
+//@   guard-call mkdir:   "MkdirAll" inside(ufs_clean(arg(0)), logr.LogrInstance.AgentPath + "/" + a.NameID + "/Download")
+//@   guard-call create:  "Create" arg(0) == DemonDownload + "/" + DownloadFile && inside(ufs_clean(DemonDownload), logr.LogrInstance.AgentPath + "/" + a.NameID + "/Download")
 //@   ensures opened: err == nil ==> (len(a.Downloads) == old(len(a.Downloads)) + 1 && a.Downloads[old(len(a.Downloads))] != nil && a.Downloads[old(len(a.Downloads))].FileID == FileID && forall(k, 0, old(len(a.Downloads)), a.Downloads[k] == old(a.Downloads)[k]))
 //@   ensures failed: err != nil ==> sameslice(a.Downloads, old(a.Downloads))
 
